@@ -144,7 +144,13 @@ func (e *Engine) modelVector() ([]uint64, error) {
 }
 
 func (e *Engine) doAssert(c Term, tag string) {
-	key := tag + "|" + e.pathString()
+	cnt, _ := e.pathData["tagcount"].(map[string]int)
+	if cnt == nil {
+		cnt = map[string]int{}
+		e.pathData["tagcount"] = cnt
+	}
+	cnt[tag]++
+	key := fmt.Sprintf("%s|%s|%d", tag, e.pathString(), cnt[tag])
 	if e.oblSeen[key] {
 		return
 	}
